@@ -10,12 +10,14 @@ import itertools
 import json
 import logging
 import os
+import re
 import subprocess
 import types
 import uuid as _uuid
 
-from common import BIN, impl_error
-from props.c20 import FIELDS, cps, cval
+from common import BIN, LEAN, impl_error
+from props.c20 import FIELDS, cval
+from props.c20 import cps as _cps_raw
 
 PROP = "C18"
 MODULES = ["C18"]
@@ -26,6 +28,86 @@ ANCHORS = ["okdmr/dmrlib/storage/__init__.py"]
 
 P1, P2, P3 = ("10.0.0.1", 50000), ("10.0.0.1", 50001), ("10.0.0.2", 50000)
 PEERS = [P1, P2, P3]
+
+_CPS = {}
+
+
+def cps(s: str) -> str:
+    r = _CPS.get(s)
+    if r is None:
+        r = _CPS[s] = _cps_raw(s)
+    return r
+
+
+# ------------------------------------------------------------------------------------------------
+# the protocol constants the property is read against (pinned here AND in Props/C18.lean `proto_pinned`: a changed
+# constant in /repo breaks that theorem and shows up here as a concrete failing delivery, it is never followed silently)
+
+H = bytes.fromhex
+SPEC = {
+    "p2pCommandPrefix": b"P2P",
+    "p2pPingPrefix": H("0a00000014"),
+    "p2pAckPrefix": H("0c00000014"),
+    "p2pTypeRegistration": 0x10,
+    "p2pTypeDmrStartup": 0x11,
+    "p2pTypeRdacStartup": 0x12,
+    "p2pIsRegisteredKey": "p2p_is_registered",
+    "rdacStep0Request": H("7e0400fe20100000000c60e1"),
+    "rdacStep0Response": H("7e0400fd"),
+    "rdacStep1Request": H("7e040000201000010018" "9b60020400050064000000" "01c403"),
+    "rdacStep1Response": H("7e040010"),
+    "rdacStep2Response": H("7e040000"),
+    "rdacStep3Request": H("7e04001020100001000c61ce"),
+    "rdacStep3Response": H("7e040000"),
+    "rdacStep4Request1": H("7e04001020100002000c61cd"),
+    "rdacStep4Request2": H("7e0400002010000200" "1958a002d40206006400000002" "00f003"),
+    "rdacStep4Response1": H("7e040010"),
+    "rdacStep4Response2": H("7e040000"),
+    "rdacStep6Request1": H("7e04001020100003000c61cc"),
+    "rdacStep6Request2": H("7e0400002010000300" "19738402d68206000064000000" "026e03"),
+    "rdacStep6Response": H("7e040010"),
+    "rdacStep7Request": H("7e0400002010000400" "19579f02d40206006400000002" "01ef03"),
+    "rdacStep7Response1": H("7e040010"),
+    "rdacStep7Response2": H("7e040000"),
+    "rdacStep10Request": H("7e040000201000150018" "9c4b020500050064000000" "01c303"),
+    "rdacStep10Response1": H("7e040010"),
+    "rdacStep10Response2": H("7e040000"),
+    "rdacStep12Request1": H("7e04001020100015000c61ba"),
+    "rdacStep12Request2": H("7e0400fb20100016000c60ce"),
+    "rdacStep12Response": H("7e0400fa"),
+}
+# step k waits for the response named here (the `table` of Model/Rdac.lean) and, leaving k, sends the requests named here
+STEP_RESP_NAME = {1: "rdacStep0Response", 2: "rdacStep1Response", 3: "rdacStep2Response", 4: "rdacStep3Response",
+                  5: "rdacStep4Response1", 6: "rdacStep4Response2", 7: "rdacStep6Response", 8: "rdacStep7Response1",
+                  10: "rdacStep7Response2", 11: "rdacStep10Response1", 12: "rdacStep10Response2", 13: "rdacStep12Response"}
+STEP_REQ_NAMES = {0: ["rdacStep0Request"], 1: ["rdacStep1Request"], 2: [], 3: ["rdacStep3Request"],
+                  4: ["rdacStep4Request1", "rdacStep4Request2"], 5: [], 6: ["rdacStep6Request1", "rdacStep6Request2"],
+                  7: ["rdacStep7Request"], 8: [], 10: ["rdacStep10Request"], 11: [], 12: ["rdacStep12Request1", "rdacStep12Request2"], 13: []}
+SPEC_RESP = {k: SPEC[n] for k, n in STEP_RESP_NAME.items()}
+SPEC_REQ = {k: [SPEC[n] for n in ns] for k, ns in STEP_REQ_NAMES.items()}
+
+
+def load_gen_proto(path=None):
+    """the tables tools/extract_proto.py wrote from /repo for THIS run (lean/DmrVerif/Gen/Proto.lean): name -> bytes | int | str"""
+    path = path or os.path.join(LEAN, "DmrVerif", "Gen", "Proto.lean")
+    out = {}
+    try:
+        src = open(path, encoding="utf-8").read()
+    except OSError:
+        return out
+    for m in re.finditer(r"^def (\w+) : List Nat := \[([^\]]*)\]", src, re.M | re.S):
+        try:
+            vals = [int(x) for x in m.group(2).replace("\n", " ").split(",") if x.strip()]
+            if all(0 <= v < 256 for v in vals):
+                out[m.group(1)] = bytes(vals)
+        except ValueError:
+            pass
+    for m in re.finditer(r"^def (\w+) : Nat := (\d+)\s*$", src, re.M):
+        out[m.group(1)] = int(m.group(2))
+    for m in re.finditer(r'^def (\w+) : String := "((?:[^"\\\\]|\\\\.)*)"\s*$', src, re.M):
+        if "\\" not in m.group(2):
+            out[m.group(1)] = m.group(2)
+    return out
 
 
 class SnmpStubError(Exception):
@@ -151,6 +233,11 @@ class Sut:
         self.storage.match_incoming(addr, auto_create=True, patch={"address_out": out_addr})
         return f"setout {cps(addr[0])}:{addr[1]} {cval(out_addr)}", f"ok len={len(self.storage)}"
 
+    def set_attr(self, addr, key, value):
+        """the application patches a dynamic attribute of the record of `addr` (never the is-registered key with a true value)"""
+        self.storage.match_incoming(addr, auto_create=True, patch={key: value})
+        return f"envpatch {cps(addr[0])}:{addr[1]} {key} {cval(value)}", f"ok len={len(self.storage)}"
+
 
 # ------------------------------------------------------------------------------------------------
 # datagram classes
@@ -202,7 +289,7 @@ def surrogate_body():
 def expected_for(step: int) -> bytes:
     """a response the handler accepts at `step` (and that lets every step proceed)"""
     return {0: b"\x55\x55", 1: RESP_FD, 2: RESP_10, 3: LONG_00, 4: RESP_00, 5: RESP_10, 6: LONG_00, 7: RESP_10, 8: RESP_10,
-            10: LONG_00, 11: RESP_10, 12: RESP_00, 13: RESP_FA}[step]
+            10: LONG_00, 11: RESP_10, 12: RESP_00, 13: RESP_FA, 14: RESP_FA}[step]  # 14: nothing is expected any more (extra data)
 
 
 STEP_ORDER = [0, 1, 2, 3, 4, 5, 6, 7, 8, 10, 11, 12, 13, 14]
@@ -214,6 +301,271 @@ def drive_to(step: int):
 
 
 # ------------------------------------------------------------------------------------------------
+# near misses of every value the handlers compare a datagram with.  The compared values are read from the tables
+# extracted from /repo for this run (Gen/Proto.lean), united with the pinned ones, so the neighbourhoods follow the code.
+
+
+def _wrong(flavour, e: int, other=None):
+    """a byte that is NOT e, in the given flavour (None: this flavour has no wrong byte here)"""
+    if flavour == "zero":
+        return 0 if e != 0 else None
+    if flavour == "inc":
+        return (e + 1) & 0xFF
+    if flavour == "dec":
+        return (e - 1) & 0xFF
+    if flavour == "cpl":
+        return e ^ 0xFF
+    if flavour == "other":
+        return other if other is not None and other != e else None
+    raise ValueError(flavour)
+
+
+def region_variants(E: bytes, others=()):
+    """[(tag, kind, bytes)]: byte strings that nearly equal the compared value E.
+    kind 'sub'  : same length, the bytes at a proper subset S of the positions equal E's, every other byte is wrong
+                  (S = all but one: one byte off; S = {0}: only the first byte; S = {n-1}: only the last; even / odd
+                  positions; S = {}: nothing), wrong = zeroed / +1 / -1 / complemented / the byte another compared value
+                  has there; plus every single-bit flip of every byte
+    kind 'len'  : one octet shorter / exactly / one octet longer than the compared region, the first one / two octets, nothing
+    kind 'shift': the value one octet late / early, rotated, reversed, adjacent octets transposed"""
+    n = len(E)
+    seen = set()
+    out = []
+
+    def add(tag, kind, b):
+        b = bytes(b)
+        if (kind, b) not in seen:
+            seen.add((kind, b))
+            out.append((tag, kind, b))
+
+    flavours = [("zero", None), ("inc", None), ("dec", None), ("cpl", None)] + [("other", o) for o in others if o != E]
+    for mask in range((1 << n) - 1):  # every subset of positions but the full one
+        keep = [i for i in range(n) if mask >> i & 1]
+        for fl, o in flavours:
+            b = bytearray(E)
+            ok = True
+            for i in range(n):
+                if i in keep:
+                    continue
+                w = _wrong(fl, E[i], o[i] if o is not None and i < len(o) else None)
+                if w is None:
+                    if fl == "other":
+                        continue  # the other value agrees here: keep E's byte (the result is dropped if it equals E)
+                    w = E[i] ^ 0xFF if fl != "zero" else 1
+                b[i] = w
+            if ok and bytes(b) != E:
+                add(f"keep{''.join(map(str, keep)) or 'none'}:{fl}", "sub", b)
+    for i in range(n):
+        for bit in range(8):
+            b = bytearray(E)
+            b[i] ^= 1 << bit
+            add(f"bit{i}.{bit}", "sub", b)
+    add("shorter", "len", E[:-1])
+    add("exact", "len", E)
+    add("longer", "len", E + b"\x00")
+    add("first1", "len", E[:1])
+    add("first2", "len", E[:2])
+    add("empty", "len", b"")
+    add("late", "shift", b"\x00" + E)
+    add("late-dup", "shift", E[:1] + E)
+    add("early", "shift", E[1:] + b"\x00")
+    add("rotated", "shift", E[1:] + E[:1])
+    add("reversed", "shift", E[::-1])
+    for i in range(n - 1):
+        b = bytearray(E)
+        b[i], b[i + 1] = b[i + 1], b[i]
+        add(f"swap{i}", "shift", b)
+    return [(t, k, b) for t, k, b in out if not (k != "len" and b == E)]
+
+
+class NearMiss:
+    """the near-miss tables of one run, generated from the extracted constants"""
+
+    def __init__(self, gen=None):
+        gen = gen if gen is not None else load_gen_proto()
+        self.gen = gen
+
+        def both(name):
+            vals = []
+            for src in (gen, SPEC):
+                v = src.get(name)
+                if v is not None and v not in vals:
+                    vals.append(v)
+            return vals
+
+        # ---- RDAC: the response each step compares with
+        self.step_expected = {k: [v for v in both(n) if isinstance(v, bytes) and v] for k, n in STEP_RESP_NAME.items()}
+        kinds = []
+        for k in sorted(self.step_expected):
+            for v in self.step_expected[k]:
+                if v not in kinds:
+                    kinds.append(v)
+        self.rdac_kinds = kinds
+        self.rdac_variants = {E: region_variants(E, [o for o in kinds if o != E]) for E in kinds}
+        # ---- P2P
+        self.cmd = [v for v in both("p2pCommandPrefix") if isinstance(v, bytes) and v]
+        self.ping = [v for v in both("p2pPingPrefix") if isinstance(v, bytes) and v]
+        self.ack = [v for v in both("p2pAckPrefix") if isinstance(v, bytes) and v]
+        self.types = []
+        for n in ("p2pTypeRegistration", "p2pTypeDmrStartup", "p2pTypeRdacStartup"):
+            for v in both(n):
+                if isinstance(v, int) and 0 <= v < 256 and v not in self.types:
+                    self.types.append(v)
+        self.keys = [v for v in both("p2pIsRegisteredKey") if isinstance(v, str) and v]
+
+    # ---- RDAC datagrams
+    @staticmethod
+    def rdac_carriers(region: bytes):
+        """the near-miss region alone, and followed by a complete response body (so the steps that read the body can)"""
+        long = region + LONG_00[4:] if len(region) >= 4 else region + LONG_00[len(region):]
+        return [("short", region), ("long", long)]
+
+    def rdac_near(self, step):
+        """[(tag, datagram)] near the response `step` waits for (steps 0 / 14 wait for nothing: the first / last kind)"""
+        Es = self.step_expected.get(step) or ([self.rdac_kinds[0]] if step == 0 else [self.rdac_kinds[-1]])
+        out = []
+        for E in Es:
+            for tag, kind, region in self.rdac_variants[E]:
+                for cn, d in self.rdac_carriers(region):
+                    out.append((f"{E.hex()}:{kind}:{tag}:{cn}", d))
+        return out
+
+    def rdac_all(self):
+        out = []
+        for E in self.rdac_kinds:
+            for tag, kind, region in self.rdac_variants[E]:
+                for cn, d in self.rdac_carriers(region):
+                    out.append((f"{E.hex()}:{kind}:{tag}:{cn}", d))
+        return out
+
+    def rdac_step_symbols(self, step):
+        """the few near misses that join the exhaustive per-step alphabet: only the last octet right (long body),
+        one octet off, one octet short, and — from the peer behind the same IP — only the first octet right"""
+        E = (self.step_expected.get(step) or ([self.rdac_kinds[0]] if step == 0 else [self.rdac_kinds[-1]]))[0]
+        n = len(E)
+        v = {t: b for t, k, b in self.rdac_variants[E]}
+        last = v.get("keep%d:zero" % (n - 1)) or v.get("keep%d:cpl" % (n - 1))
+        off = v.get("keep%s:inc" % "".join(str(i) for i in range(n) if i != 1)) or v.get("bit1.0")
+        first = v.get("keep0:cpl")
+        syms = []
+        if last:
+            syms.append(("rdac", P1, self.rdac_carriers(last)[1][1], False))
+        if off:
+            syms.append(("rdac", P1, off + b"\x20\x10\x00\x16", False))
+        syms.append(("rdac", P1, E[:-1], False))
+        if first:
+            syms.append(("rdac", P2, first, False))
+        return syms
+
+    # ---- P2P datagrams
+    def p2p_all(self):
+        """[(tag, datagram)]: near misses of the command prefix (x every packet type, x with / without a ping prefix
+        behind it), of the packet-type octet at offset 20 (wrong value, missing, one octet early / late), of the ping and
+        acknowledgement prefixes at offset 4"""
+        out = []
+        seen = set()
+
+        def add(tag, d):
+            d = bytes(d)
+            if d not in seen:
+                seen.add(d)
+                out.append((tag, d))
+
+        types = self.types or [0x10, 0x11, 0x12]
+        ping0 = (self.ping or [SPEC["p2pPingPrefix"]])[0]
+        for E in self.cmd:
+            n = len(E)
+            for tag, kind, region in region_variants(E, [b"ZZZ", b"P2Q"]):
+                for t in types:
+                    base = bytearray(p2p_command(t, rid=1, length=24))
+                    base[0:n] = E
+                    withping = bytearray(base)
+                    withping[4 : 4 + len(ping0)] = ping0
+                    for cn, car in (("cmd", base), ("cmd+ping", withping)):
+                        if kind == "sub":
+                            d = bytearray(car)
+                            d[0:n] = region
+                        elif kind == "len":
+                            if tag in ("shorter", "exact", "longer"):
+                                d = car[: len(region)]  # the datagram ends inside / right after the compared region
+                            else:
+                                continue
+                        else:
+                            d = bytearray(car)
+                            d[0 : len(region)] = region
+                        add(f"cmd:{kind}:{tag}:{t:02x}:{cn}", d)
+        for t in types:
+            E = bytes([t])
+            for tag, kind, region in region_variants(E, [bytes([o]) for o in types if o != t]):
+                if kind != "sub":
+                    continue
+                add(f"type:{t:02x}:{tag}", p2p_command(region[0], rid=1, length=24))
+            base = p2p_command(t, rid=1, length=24, fill=0)
+            add(f"type:{t:02x}:len20", base[:20])
+            add(f"type:{t:02x}:len21", base[:21])
+            add(f"type:{t:02x}:len22", base[:22])
+            for off in (19, 21):
+                d = bytearray(p2p_command(0, rid=1, length=24))
+                d[off] = t
+                add(f"type:{t:02x}:at{off}", d)
+                d = bytearray(p2p_command(0, rid=1, length=24, fill=t))
+                d[20] = 0
+                add(f"type:{t:02x}:everywhere-but-20", d)
+        for name, Es, ack in (("ping", self.ping, False), ("ack", self.ack, True)):
+            for E in Es:
+                n = len(E)
+                others = [o for o in (self.ping + self.ack) if o != E]
+                for tag, kind, region in region_variants(E, others):
+                    if ack and kind == "sub" and not (tag.endswith(":cpl") or tag.endswith(":other") or tag.startswith("bit0")):
+                        continue  # the acknowledgement prefix only matters as "not a ping": a thinner neighbourhood
+                    car = bytearray(p2p_ping(16, ack=ack))
+                    car[4 : 4 + n] = E
+                    if kind == "sub":
+                        d = bytearray(car)
+                        d[4 : 4 + n] = region
+                    elif kind == "len":
+                        if tag in ("shorter", "exact", "longer"):
+                            d = car[: 4 + len(region)]
+                        else:
+                            continue
+                    else:
+                        d = bytearray(p2p_ping(16, ack=ack))
+                        if tag in ("late", "late-dup"):
+                            d[4:9] = bytes(5)
+                            d[5 : 5 + n] = E
+                        elif tag == "early":
+                            d[4:9] = bytes(5)
+                            d[3 : 3 + n] = E
+                        else:
+                            d[4 : 4 + len(region)] = region
+                    add(f"{name}:{kind}:{tag}", d)
+                for L in (12, 13, 14, 15):  # the answer writes data[12] and data[14]
+                    add(f"{name}:len{L}", bytes(car[:L]))
+                d = bytearray(16)
+                d[0:n] = E
+                add(f"{name}:at0", d)
+        return out
+
+    def pools(self):
+        self.pool_rdac = self.rdac_all()
+        self.pool_p2p = self.p2p_all()
+        self.pool_keys = self.key_near()
+        return self
+
+    def key_near(self):
+        """attribute names that nearly equal the is-registered key (ASCII, printable: the line protocol prints keys raw)"""
+        out = []
+        for K in self.keys:
+            cand = [K[:-1], K + "d", K + "_", "_" + K, K.upper(), K.capitalize(), K[:-1] + chr(ord(K[-1]) + 1), chr(ord(K[0]) + 1) + K[1:],
+                    K.replace("_", "-"), K.replace("_", ""), K.replace("_", "."), K[1:], K.split("_", 1)[-1], K.rsplit("_", 1)[0],
+                    K.rsplit("_", 1)[-1], K[: len(K) // 2], K[::-1], K + K, K.replace("is_", ""), K.replace("p2p", "rdac")]
+            for c in cand:
+                if c and c not in self.keys and c not in SPEC.values() and c not in FIELDS and c not in out and re.fullmatch(r"[A-Za-z0-9_.\-]+", c):
+                    out.append(c)
+        return out
+
+
+# ------------------------------------------------------------------------------------------------
 # the property on the real code
 
 
@@ -222,10 +574,8 @@ class Oracle:
         self.ctx, self.sut, self.history, self.ports = ctx, sut, history, ports
         self.registered = set()
         self.completions = {}
-        R = sut.R
-        self.expected = {1: R.STEP0_RESPONSE, 2: R.STEP1_RESPONSE, 3: R.STEP2_RESPONSE, 4: R.STEP3_RESPONSE, 5: R.STEP4_RESPONSE_1,
-                         6: R.STEP4_RESPONSE_2, 7: R.STEP6_RESPONSE, 8: R.STEP7_RESPONSE_1, 10: R.STEP7_RESPONSE_2,
-                         11: R.STEP10_RESPONSE_1, 12: R.STEP10_RESPONSE_2, 13: R.STEP12_RESPONSE}
+        # the pinned protocol constants, not the live class attributes: a changed constant must not move the yardstick
+        self.expected = SPEC_RESP
         self.next = {0: 1, 1: 2, 2: 3, 3: 4, 4: 5, 5: 6, 6: 7, 7: 8, 8: 10, 10: 11, 11: 12, 12: 13, 13: 14, 14: 14}
 
     def fail(self, kind, what, expected=None, actual=None):
@@ -233,26 +583,49 @@ class Oracle:
         if len(self.ctx.failures) < 200:
             self.ctx.fail(kind, {"history": list(self.history), "ports": list(self.ports)}, what, expected=expected, actual=actual)
 
+    def env_attr(self, addr, key, value):
+        """the application wrote a dynamic attribute.  Writing the is-registered key itself is the application's own
+        authorisation decision (outside the property): a true value authorises, a false one (not None: skipped) revokes"""
+        if key == SPEC["p2pIsRegisteredKey"] and value is not None:
+            if value:
+                self.registered.add(addr)
+            else:
+                self.registered.discard(addr)
+
     # ---- P2P
     def p2p_before(self, addr):
+        self.calls0 = self.sut.snmp_calls
         self.snap0 = self.sut.snapshot()
         rec = self.sut.record_of(addr)
         self.out0 = rec.address_out if rec is not None else None
 
     def p2p_after(self, addr, data, events, exc):
         sut = self.sut
-        P = sut.P
         sends = [(e[1], e[2]) for e in events if e[0] == "send"]
-        is_cmd = data[:3] == P.COMMAND_PREFIX
+        is_cmd = data[:3] == SPEC["p2pCommandPrefix"]
         ptype = data[20] if len(data) > 20 else 0
-        is_reg = is_cmd and ptype == P.PACKET_TYPE_REQUEST_REGISTRATION
-        is_rdac = is_cmd and ptype == P.PACKET_TYPE_REQUEST_RDAC_STARTUP
-        is_dmr = is_cmd and ptype == P.PACKET_TYPE_REQUEST_DMR_STARTUP
-        is_ping = (not is_cmd) and data[4:9] == P.PING_PREFIX
+        is_reg = is_cmd and ptype == SPEC["p2pTypeRegistration"]
+        is_rdac = is_cmd and ptype == SPEC["p2pTypeRdacStartup"]
+        is_dmr = is_cmd and ptype == SPEC["p2pTypeDmrStartup"]
+        is_ping = (not is_cmd) and data[4:9] == SPEC["p2pPingPrefix"]
         registered = addr in self.registered
         reject = (b"\x00", addr)
-        if exc is not None and type(exc).__name__ not in ("ValueError", "IndexError", "SnmpStubError"):
-            self.fail("p2p-unexpected-exception", f"datagram_received raised {type(exc).__name__}: {exc}")
+        # network I/O (the SNMP read) belongs to a registration that got as far as its answer, to nothing else
+        io = sut.snmp_calls - self.calls0
+        if io != (1 if is_reg and type(exc).__name__ != "ValueError" else 0):
+            self.fail("p2p-snmp-io", "the SNMP read was started by a datagram that is no (completing) registration, or not by one that is",
+                      expected=int(is_reg and type(exc).__name__ != "ValueError"), actual=io)
+        if exc is not None:
+            # the only exceptions a datagram may cause: data[4] = 255 in a registration / an authorised start-up request
+            # (ValueError), an authorised ping shorter than 15 octets (IndexError), the stubbed SNMP call of a registration
+            name = type(exc).__name__
+            okexc = (
+                (name == "ValueError" and len(data) > 4 and data[4] == 255 and (is_reg or ((is_rdac or is_dmr) and registered)))
+                or (name == "IndexError" and is_ping and registered and len(data) < 15)
+                or (name == "SnmpStubError" and is_reg and self.sut.snmp_fails)
+            )
+            if not okexc:
+                self.fail("p2p-unexpected-exception", f"datagram_received raised {name}: {exc}")
         if is_reg:
             if exc is None:
                 self.registered.add(addr)
@@ -292,6 +665,7 @@ class Oracle:
 
     # ---- RDAC
     def rdac_before(self, addr):
+        self.calls0 = self.sut.snmp_calls
         self.steps0 = dict(self.sut.rdac.step)
         self.snap0 = self.sut.snapshot()
         self.rec0 = self.sut.record_of(addr)
@@ -306,16 +680,20 @@ class Oracle:
         for k in set(self.steps0) | set(steps1):
             if k != ip and (self.steps0.get(k) or 0) != (steps1.get(k) or 0):
                 self.fail("rdac-isolation", f"a datagram from {ip} changed the step of {k}", expected=self.steps0.get(k), actual=steps1.get(k))
+        exp = self.expected.get(before)
+        is_reset = len(data) == 1 and before != 14
+        is_expected = before not in (0, 14) and not is_reset and len(data) != 1 and exp is not None and data[: len(exp)] == exp
         if exc is not None:
             name = type(exc).__name__
-            okexc = (name == "UnicodeDecodeError" and before == 6) or (name == "IndexError" and before == 10) or (name == "SnmpStubError" and before == 13)
+            okexc = is_expected and (
+                (name == "UnicodeDecodeError" and before == 6)
+                or (name == "IndexError" and before == 10 and len(data) <= 26)
+                or (name == "SnmpStubError" and before == 13 and sut.snmp_fails)
+            )
             if not okexc:
                 self.fail("rdac-unexpected-exception", f"datagram_received raised {name} at step {before}: {exc}")
             if name != "SnmpStubError" and after != before:
                 self.fail("rdac-error-changed-step", "a datagram that raised changed the step", expected=before, actual=after)
-        exp = self.expected.get(before)
-        is_reset = len(data) == 1 and before != 14
-        is_expected = before not in (0, 14) and not is_reset and len(data) != 1 and exp is not None and data[: len(exp)] == exp
         if is_reset:
             want = 1
         elif before == 14:
@@ -329,12 +707,29 @@ class Oracle:
         if after != want:
             kind = "rdac-advanced-unexpected" if after not in (before, 1) or not is_reset and after != before and not is_expected and before != 0 else "rdac-step"
             self.fail(kind, f"step of {ip} went {before} -> {after} on {'reset' if is_reset else 'expected response' if is_expected else 'other datagram'}", expected=want, actual=after)
+        io = sut.snmp_calls - self.calls0
+        if io != (1 if before == 13 and is_expected else 0):
+            self.fail("rdac-snmp-io", f"the SNMP read of the completion was started at step {before} by a datagram that is not the final response, or not by the final response",
+                      expected=int(before == 13 and is_expected), actual=io)
         sends = [(e[1], e[2]) for e in events if e[0] == "send"]
-        if is_reset and (sut.R.STEP0_REQUEST, addr) not in sends:
+        if is_reset and (SPEC["rdacStep0Request"], addr) not in sends:
             self.fail("rdac-restart", "a one-octet reset did not restart the identification (step-0 request not sent)")
         for d, a in sends:
             if a != addr:
                 self.fail("rdac-destination", "a request was sent to another address than the peer's", expected=cval(addr), actual=cval(a))
+        # no output other than the specified one: the step-0 request on a start / reset, the requests of the step on its
+        # expected response, nothing on anything else (step 14 answers a one-octet datagram or not: left to the model)
+        want_out = None
+        if is_reset or before == 0:
+            want_out = SPEC_REQ[0]
+        elif before != 14:
+            want_out = (SPEC_REQ[before] if exc is None else []) if is_expected else []
+        elif len(data) != 1:
+            want_out = []
+        if want_out is not None and [d for d, _ in sends] != want_out:
+            kind = "rdac-output" if is_reset or before == 0 or is_expected else "rdac-unexpected-answered"
+            self.fail(kind, f"at step {before} the handler sent other datagrams than specified for {'a reset / start' if is_reset or before == 0 else 'the expected response' if is_expected else 'an unexpected datagram'}",
+                      expected=[d.hex() for d in want_out], actual=[d.hex() for d, _ in sends])
         # completion exactly once per completed run
         cbs = [e[1] for e in events if e[0] == "cb"]
         completes = before == 13 and after == 14 and exc is None
@@ -356,11 +751,14 @@ class Oracle:
         for i in range(len(snap1)):
             if i != mine and (i >= len(self.snap0) or snap1[i] != self.snap0[i]):
                 self.fail("rdac-storage-local", "a datagram changed / created the record of another address")
+        # ... and an unexpected datagram changes nothing of the sender's record either (it may only have been auto-created)
+        if not is_expected and self.rec0 is not None and mine is not None and mine < len(self.snap0) and snap1[mine] != self.snap0[mine]:
+            self.fail("rdac-unexpected-changed-record", f"a datagram that is not the expected response of step {before} changed the sender's record")
 
 
 # ------------------------------------------------------------------------------------------------
 def apply(sut, oracle, sym, pairs, ctx):
-    """sym = ("p2p"|"rdac", peer, data, snmp_fails) | ("setout", peer, out)"""
+    """sym = ("p2p"|"rdac", peer, data, snmp_fails) | ("setout", peer, out) | ("setattr", peer, key, value)"""
     if sym[0] == "p2p":
         _, addr, data, f = sym
         if oracle:
@@ -379,6 +777,13 @@ def apply(sut, oracle, sym, pairs, ctx):
         pairs.append((line, out))
         if oracle:
             oracle.rdac_after(addr, data, events, exc)
+    elif sym[0] == "setattr":
+        _, addr, key, value = sym
+        if oracle:
+            oracle.history.append(["setattr", list(addr), key, value])
+            oracle.env_attr(addr, key, value)
+        pairs.append(sut.set_attr(addr, key, value))
+        exc = None
     else:
         _, addr, out_addr = sym
         if oracle:
@@ -457,8 +862,16 @@ CORPUS = [
 ]
 
 
-def random_sym(rng):
+def random_sym(rng, nm=None):
     peer = rng.choice(PEERS)
+    if nm is not None and rng.random() < 0.15:
+        # a near miss of one of the compared values, wherever the history happens to be
+        k = rng.randrange(100)
+        if k < 50:
+            return ("rdac", peer, rng.choice(nm.pool_rdac)[1], False)
+        if k < 95:
+            return ("p2p", peer, rng.choice(nm.pool_p2p)[1], False)
+        return ("setattr", peer, rng.choice(nm.pool_keys), rng.choice([True, 1, "x", 0, ""]))
     c = rng.randrange(100)
     if c < 40:
         k = rng.randrange(100)
@@ -490,6 +903,206 @@ def random_sym(rng):
     return ("rdac", peer, d, rng.random() < 0.05)
 
 
+class Shadow:
+    """keeps the oracle failures of a long probing history apart, so that the failing delivery can be re-run alone"""
+
+    def __init__(self, ctx):
+        self.ctx = ctx
+        self.failures = []
+
+    def fail(self, kind, input, what, expected=None, actual=None):
+        self.failures.append({"kind": kind, "input": input, "what": what, "expected": expected, "actual": actual})
+
+    def count(self, key, n=1):
+        self.ctx.count(key, n)
+
+
+def p2p_states():
+    reg = p2p_command(0x10)
+    out = ("192.0.2.9", 40000)
+    return [
+        ("fresh", []),
+        ("known", [("setout", P1, out)]),
+        ("registered", [("p2p", P1, reg, False)]),
+        ("registered+out", [("p2p", P1, reg, False), ("setout", P1, out), ("p2p", P3, reg, False)]),
+        ("sibling-registered", [("p2p", P2, reg, False)]),  # same IP, other port
+        ("failed-255", [("p2p", P1, p2p_command(0x10, rid=255), False)]),
+        ("failed-snmp", [("p2p", P1, reg, True)]),
+        ("rdac-known", [("rdac", P1, b"\x55\x55", False)]),  # record auto-created by the RDAC handler on the shared storage
+    ]
+
+
+# addresses that nearly equal P1's: its IP as a proper prefix / with a leading zero / cut short, its port cut short / off by one / zero
+NEAR_ADDRS = [("10.0.0.10", 50000), ("10.0.0.", 50000), ("010.0.0.1", 50000), ("10.0.0.1.", 50000), ("10.0.0.1", 5000), ("10.0.0.1", 50001),
+              ("10.0.0.1", 49999), ("10.0.0.1", 0), ("10.0.0.11", 50000), ("10.0.0.2", 50001)]
+
+P2P_FOLLOW = [("p2p", P1, p2p_ping(16), False), ("p2p", P1, p2p_command(0x11), False), ("p2p", P1, p2p_command(0x12), False)]
+
+
+def near_miss_sections(ctx, nm, pairs, flush):
+    """near misses of every compared value, delivered where they are nearly expected (see `region_variants`)"""
+    park = [("rdac", P3, d, False) for d in drive_to(3)]
+    idx = {st: i for i, st in enumerate(STEP_ORDER)}
+
+    def is_exp(st, d):
+        e = SPEC_RESP.get(st)
+        return e is not None and len(d) != 1 and d[: len(e)] == e
+
+    # ---- RDAC: one near miss alone at the step that nearly expects it, then the expected response (the run goes on from
+    # where it was; from step 13 it completes, exactly once), alternately from the peer itself and from the peer behind its IP
+    n = 0
+    for st in STEP_ORDER:
+        prefix = [("rdac", P1, d, False) for d in drive_to(st)] + park
+        near = nm.rdac_near(st)
+        if st in (0, 14):
+            near = near[::6]  # nothing is expected there: a thinner sample
+        tail = [("rdac", P1, expected_for(st), False)]
+        if st == 13:
+            tail = tail + [("rdac", P1, RESP_FA, False), ("rdac", P1, b"\x00", False)]
+        for j, (tag, d) in enumerate(near):
+            who = P1 if j % 3 else P2
+            run_history(ctx, [("rdac", who, d, j % 5 == 0)] + tail, pairs, prefix=prefix)  # a failing SNMP stub must stay unused
+            ctx.case(("rdac-near", st, tag), sample={"start_step": st, "near_miss": tag, "datagram": d[:8].hex(), "length": len(d)} if (st, j) == (13, 40) else None)
+            ctx.count(f"nearmiss:rdac:{tag.split(':')[1]}")
+            ctx.count("nearmiss:rdac:is-the-expected-one(control)" if is_exp(st, d) else "nearmiss:rdac:is-a-reset" if len(d) == 1 else "nearmiss:rdac:unexpected")
+            n += 1
+    ctx.count("nearmiss:rdac-alone", n)
+    flush("handshake.rdac-near")
+    # ---- RDAC: every near miss of every response kind at every step, one long history per step (none may move the step),
+    # then the rest of the identification (still completes, once).  A failing delivery is re-run alone for a short replay.
+    allnear = nm.pool_rdac
+    n = 0
+    for st in STEP_ORDER:
+        prefix = [("rdac", P1, d, False) for d in drive_to(st)] + park
+        eff = 1 if st == 0 else st  # the first datagram of the train starts the run
+        train = [("rdac", (P1, P2, P1, P3)[j % 4], d, False) for j, (tag, d) in enumerate(allnear) if len(d) != 1 and not is_exp(eff, d)]
+        rest = [("rdac", P1, expected_for(s2), False) for s2 in STEP_ORDER[idx[eff] : -1]] + [("rdac", P1, RESP_FA, False)]
+        sh = Shadow(ctx)
+        run_history(sh, train + rest, pairs, prefix=prefix)
+        ctx.case(("rdac-train", st, len(train)))
+        n += len(train)
+        if sh.failures:
+            before = len(ctx.failures)
+            seen = []
+            for f in sh.failures:
+                h = f["input"]["history"][-1]
+                if h in seen or len(seen) >= 3:
+                    continue
+                seen.append(h)
+                alone = [("rdac", tuple(h[1]), bytes.fromhex(h[2]), bool(h[3]))]
+                run_history(ctx, alone, pairs, prefix=prefix if st else prefix + [("rdac", P1, b"\x55\x55", False)])
+            if len(ctx.failures) == before:  # only the accumulated history shows it
+                f = sh.failures[0]
+                ctx.fail(f["kind"], f["input"], f["what"], expected=f["expected"], actual=f["actual"])
+    ctx.count("nearmiss:rdac-train-deliveries", n)
+    flush("handshake.rdac-near-train")
+    # ---- RDAC: every near miss of every response kind alone at every step, then the step's expected response
+    n = 0
+    for st in STEP_ORDER:
+        prefix = [("rdac", P1, d, False) for d in drive_to(st)]
+        for j, (tag, d) in enumerate(allnear):
+            run_history(ctx, [("rdac", P1, d, False), ("rdac", P1, expected_for(st), False)], pairs, prefix=prefix)
+            ctx.case(("rdac-near-all", st, tag))
+            n += 1
+        flush("handshake.rdac-near-all")
+    ctx.count("nearmiss:rdac-alone-every-step", n)
+    # ---- P2P: every near miss of the command prefix / packet type / ping / acknowledgement prefix from P1 in every
+    # registration state, followed by a ping, a DMR and an RDAC start-up from P1 (a near miss must not have registered it)
+    states = p2p_states()
+    n = 0
+    for j, (tag, d) in enumerate(nm.pool_p2p):
+        for k, (sname, pre) in enumerate(states):
+            run_history(ctx, [("p2p", P1, d, (j + k) % 4 == 0)] + P2P_FOLLOW, pairs, prefix=pre)
+            ctx.case(("p2p-near", sname, tag), sample={"state": sname, "near_miss": tag, "datagram": d.hex()} if (sname, tag) == ("fresh", "cmd:sub:keep01:inc:10:cmd") else None)
+            n += 1
+        ctx.count(f"nearmiss:p2p:{tag.split(':')[0]}")
+    ctx.count("nearmiss:p2p-deliveries", n)
+    flush("handshake.p2p-near")
+    # ---- the is-registered key: attributes with nearly that name (true values) authorise nobody; nearly-named false
+    # values revoke nothing; the key itself with a false value / None authorises nobody
+    KEY = SPEC["p2pIsRegisteredKey"]
+    reg = ("p2p", P1, p2p_command(0x10), False)
+    n = 0
+    for key in nm.pool_keys:
+        for val in (True, 1, "yes"):
+            run_history(ctx, [("setattr", P1, key, val)] + P2P_FOLLOW + [reg] + P2P_FOLLOW, pairs)
+            run_history(ctx, [("setattr", P1, key, val)] + P2P_FOLLOW, pairs, prefix=[("p2p", P2, p2p_command(0x10), False), ("rdac", P1, b"\x55\x55", False)])
+            ctx.case(("key-near", key, val))
+            n += 2
+        for val in (False, 0, ""):
+            run_history(ctx, [reg, ("setattr", P1, key, val)] + P2P_FOLLOW, pairs)
+            ctx.case(("key-near-false", key, val))
+            n += 1
+    for val in (False, 0, "", None):
+        run_history(ctx, [("setattr", P1, KEY, val)] + P2P_FOLLOW + [reg] + P2P_FOLLOW, pairs)
+        run_history(ctx, [("setattr", P2, KEY, val)] + P2P_FOLLOW, pairs, prefix=[("p2p", P3, p2p_command(0x10), False)])
+        ctx.case(("key-exact-false", val))
+        n += 2
+    ctx.count("nearmiss:key-histories", n)
+    flush("handshake.key-near")
+    # ---- near misses of the peer ADDRESS (the registered flag is looked up by (ip, port), the RDAC step by ip): peers whose
+    # address nearly equals a registered / half-identified peer's are strangers
+    n = 0
+    for near in NEAR_ADDRS:
+        for st in (1, 5, 13):
+            pre = [("p2p", P1, p2p_command(0x10), False), ("setout", P1, ("192.0.2.9", 40000))] + [("rdac", P1, d, False) for d in drive_to(st)]
+            follow = [("p2p", near, p2p_ping(16), False), ("p2p", near, p2p_command(0x11), False), ("p2p", near, p2p_command(0x12), False),
+                      ("rdac", near, expected_for(st), False), ("rdac", near, expected_for(1), False), ("rdac", near, b"\x00", False),
+                      ("rdac", P1, expected_for(st), False), ("p2p", P1, p2p_ping(16), False),
+                      ("p2p", near, p2p_command(0x10), False), ("p2p", near, p2p_ping(16), False), ("p2p", P1, p2p_command(0x12), False)]
+            run_history(ctx, follow, pairs, prefix=pre)
+            ctx.case(("addr-near", near, st))
+            n += 1
+    ctx.count("nearmiss:address-histories", n)
+    flush("handshake.addr-near")
+    # ---- P2P exhaustive, extended alphabet: requests of two peers behind one IP plus one near miss of every compared value
+    cmdE = (nm.cmd or [SPEC["p2pCommandPrefix"]])[0]
+    pingE = (nm.ping or [SPEC["p2pPingPrefix"]])[0]
+    regT = nm.gen.get("p2pTypeRegistration") if isinstance(nm.gen.get("p2pTypeRegistration"), int) else SPEC["p2pTypeRegistration"]
+    regT &= 0xFF
+    base = bytearray(p2p_command(regT, rid=1, length=24))
+    base[0 : len(cmdE)] = cmdE
+    ping = bytearray(p2p_ping(16))
+    ping[4 : 4 + len(pingE)] = pingE
+
+    def edit(b, at, new):
+        b = bytearray(b)
+        b[at : at + len(new)] = new
+        return bytes(b)
+
+    xs = [
+        ("p2p", P1, p2p_command(0x10), False), ("p2p", P1, p2p_command(0x11), False), ("p2p", P1, p2p_command(0x12), False), ("p2p", P1, p2p_ping(16), False),
+        ("p2p", P2, p2p_command(0x10), False), ("p2p", P2, p2p_ping(16), False),
+        ("setattr", P1, nm.pool_keys[0] if nm.pool_keys else "p2p_is_registere", True),
+    ]
+    n_plain = len(xs) - 1
+    for d in (
+        edit(base, len(cmdE) - 1, bytes([(cmdE[-1] + 1) & 0xFF])),  # P2Q..., registration type: one octet of the prefix off
+        edit(edit(base, 1, bytes(x ^ 0xFF for x in cmdE[1:])), 4, pingE),  # only the first octet of the prefix, registration type, ping prefix behind: a ping
+        bytes(base[: len(cmdE) - 1]),  # ends one octet before the end of the prefix
+        edit(base, 20, bytes([regT ^ 0x20])),  # registration type with one bit flipped: unknown command
+        edit(edit(base, 20, b"\x00"), 19, bytes([regT])),  # the type one octet early
+        bytes(base[:20]),  # the type octet is missing
+        edit(ping, 4 + len(pingE) - 1, bytes([(pingE[-1] + 1) & 0xFF])),  # last octet of the ping prefix off by one
+        edit(edit(ping, 4, bytes(len(pingE))), 5, pingE),  # the ping prefix one octet late
+        bytes(ping[: 4 + len(pingE) - 1]),  # ends one octet before the end of the ping prefix
+    ):
+        xs.append(("p2p", P1, d, False))
+    n = 0
+    for L in range(1, 5 if ctx.thorough() else 4):
+        for seq in itertools.product(range(len(xs)), repeat=L):
+            if not any(i >= n_plain for i in seq):
+                continue  # without a near miss: covered by the main alphabet
+            run_history(ctx, [xs[i] for i in seq], pairs)
+            ctx.case(("p2p-x", seq))
+            n += 1
+            if len(pairs) > 300000:
+                flush("handshake.p2p-x")
+    ctx.count("exhaustive:p2p-with-near-misses", n)
+    ctx.count("exhaustive:p2p-with-near-misses:alphabet", len(xs))
+    flush("handshake.p2p-x")
+
+
 def sym_json(s):
     return [s[0], list(s[1])] + [x.hex() if isinstance(x, bytes) else (list(x) if isinstance(x, tuple) else x) for x in s[2:]]
 
@@ -509,12 +1122,26 @@ def _run(ctx):
         "symbols (3 peers x {registration, DMR start-up, RDAC start-up, ping}, ack, unknown command, garbage, outbound-address "
         "update, data[4]=255, SNMP failure, short ping); RDAC: every sequence up to length 4 / 5 over 2 peers x 6 datagram classes "
         "from the initial state and every sequence up to length 2 / 3 over 27 symbols (3 peers x 7 classes + bad UTF-16, lone "
-        "surrogate, 0x01, empty, SNMP failure, short body) from each of the 14 steps; random mixed histories up to 150 "
-        "datagrams with random bodies. Distinct = distinct symbol sequence; non-trivial = at least one datagram dispatches"
+        "surrogate, 0x01, empty, SNMP failure, short body) plus 4 near misses of THAT step's expected response from each of the "
+        "14 steps; NEAR MISSES of every value the handlers compare with (each RDAC step's response prefix, command / ping / ack "
+        "prefix, packet-type octet at offset 20, one-octet reset, is-registered key), generated from the tables extracted from "
+        "/repo this run (Gen/Proto.lean) united with the pinned ones: for every proper subset of the compared positions the "
+        "datagram that is right exactly there and wrong elsewhere (wrong = zeroed / +1 / -1 / complemented / another compared "
+        "value's octet; so: one octet off, only first, only last, only even positions ...), every single-bit flip, one octet "
+        "shorter / exact / longer than the compared region, the value one octet early / late / rotated / reversed / transposed, "
+        "as a bare prefix and with a full body; each delivered alone at the step that nearly expects it (from the peer and from "
+        "the peer behind its IP) followed by the expected response, alone at every other step, and all of them in one long history "
+        "per step followed by the rest of the identification; P2P near misses from a peer in 8 registration states (fresh, known, "
+        "registered, registered with outbound address, sibling behind the IP registered, failed with data[4]=255, failed SNMP, "
+        "known through RDAC) followed by ping / DMR / RDAC start-up; records carrying attributes named nearly like the "
+        "is-registered key (true and false values) and the key itself with false values; every P2P sequence up to length 3 over "
+        "16 symbols containing at least one near miss; random mixed histories up to 150 datagrams with random bodies, 15 % of "
+        "the symbols drawn from the near-miss tables. Distinct = distinct symbol sequence; non-trivial = at least one datagram dispatches"
     )
     ctx.trusted_base += [
         "Lean 4.33 kernel",
         "tools/extract_proto.py / extract_storage.py (byte-string constants, packet types, attribute keys, ports read from /repo)",
+        "the protocol constants the oracle reads the property against are pinned in this file (SPEC) and, identically, in the theorem proto_pinned; the near-miss tables are generated from Gen/Proto.lean of this run",
         "hand-written models of the two datagram_received methods and step0..step14 (Model/P2p.lean, Model/Rdac.lean) over the storage model of C20, tied to the code by this run's correspondence",
         "Repeater.read_snmp_values is stubbed (returns {} or raises on demand); uuid4 is a counter",
         "Python's utf_16_le / utf-8 codecs are modelled on code points (decodeField) and only cross-checked here",
@@ -525,6 +1152,7 @@ def _run(ctx):
         "peers are identified as the code does: the storage by (ip, port), the RDAC step dictionary by ip alone (two peers behind one IP share a run)",
         "'expected response' at step 0 is any datagram (the first datagram of a peer starts the identification)",
         "UDP ports and the configured ports are < 65536",
+        "the application may patch any attribute of a record between datagrams except id, address_in and the is-registered key with a true value (envOk); writing that key itself is the application's own authorisation decision and is followed by the oracle",
     ]
     pairs = []
 
@@ -568,11 +1196,13 @@ def _run(ctx):
                 flush("handshake.rdac")
     flush("handshake.rdac")
     ctx.count("exhaustive:rdac-from-init", n)
-    # ---- RDAC exhaustive from every step
-    salpha = rdac_alphabet(PEERS) + RDAC_EXTRA
+    # ---- RDAC exhaustive from every step: the common alphabet plus the near misses of THIS step's expected response
+    nm = NearMiss().pools()
+    ctx.count("nearmiss:tables-read-from-Gen/Proto", len(nm.gen))
     slen = 2 if not ctx.thorough() else 3
     n = 0
     for st in STEP_ORDER:
+        salpha = rdac_alphabet(PEERS) + RDAC_EXTRA + nm.rdac_step_symbols(st)
         prefix = [("rdac", P1, d, False) for d in drive_to(st)] + [("rdac", P3, d, False) for d in drive_to(3)]
         for L in range(1, slen + 1):
             for seq in itertools.product(range(len(salpha)), repeat=L):
@@ -583,10 +1213,11 @@ def _run(ctx):
                     flush("handshake.rdac-steps")
     flush("handshake.rdac-steps")
     ctx.count("exhaustive:rdac-from-each-step", n)
+    near_miss_sections(ctx, nm, pairs, flush)
     # ---- random mixed histories
     for i in range(ctx.budget(400, 8000)):
         length = ctx.rng.choice([5, 20, 60, 150]) if i % 5 else 150
-        seq = [random_sym(ctx.rng) for _ in range(length)]
+        seq = [random_sym(ctx.rng, nm) for _ in range(length)]
         prefix = []
         if i % 3 == 0:
             prefix = [("rdac", ctx.rng.choice(PEERS), d, False) for d in drive_to(ctx.rng.choice(STEP_ORDER))]
@@ -613,6 +1244,8 @@ def replay(obj):
     for h in hist:
         if h[0] == "setout":
             syms.append(("setout", tuple(h[1]), tuple(h[2])))
+        elif h[0] == "setattr":
+            syms.append(("setattr", tuple(h[1]), h[2], h[3]))
         else:
             syms.append((h[0], tuple(h[1]), bytes.fromhex(h[2]), bool(h[3])))
 
